@@ -309,6 +309,33 @@ let run_ro st (desc : string) (f : string array) (h : int -> (n * n) option) : s
      | XPanicked -> "panic"
      | XNotApplicable -> "na")
 
+(* ACX / IBX / IBXX / RCX / RCXX: append_child / insert_before / replace_child whose new_child is entry k of the merged
+   child list of handle c -- the extracted [step_mx] of Model/DomMergedArg.v (world unchanged; the outcome by receiver
+   kind and document identity; NOT_SUPPORTED_ERR since /repo aa36908) *)
+let run_mx st (f : string array) (h : int -> (n * n) option) : string =
+  let idx k = if k < Array.length f then (match int_of_string_opt f.(k) with Some x when x >= 0 -> Some (n_of_int x) | _ -> None) else None in
+  let call = (match f.(0) with "ACX" -> MxAppend | "IBX" | "IBXX" -> MxInsertBefore | _ -> MxReplace) in
+  let op : mx_op option =
+    match h 1, h 2, idx 3 with
+    | Some r, Some c, Some k ->
+      (match f.(0) with
+       | "ACX" -> Some (MxOp (call, r, c, k, MxNoRef))
+       | "IBX" | "RCX" -> (match h 4 with Some x -> Some (MxOp (call, r, c, k, MxNode x)) | None -> None)
+       | _ -> (match h 4, idx 5 with Some c2, Some k2 -> Some (MxOp (call, r, c, k, MxMergedRef (c2, k2))) | _ -> None))
+    | _ -> None in
+  match op with
+  | None -> "na"
+  | Some o ->
+    let (w1, oc) = step_mx st.world o in
+    st.world <- w1;
+    (match oc with
+     | MOk _ -> "ok"
+     | MFailed MNotSupportErr -> "err:NotSupportErr"
+     | MFailed (MExc (XExc e)) -> exc_name e
+     | MFailed (MExc XNoModificationAllowedErr) -> "err:NoModificationAllowedErr"
+     | MPanicked -> "panic"
+     | MNotApplicable -> "na")
+
 let () = register "dom" (fun words ->
   match words with
   | view :: _nd :: desc :: ops when String.length desc > 0 && desc.[0] = '@' ->
@@ -382,6 +409,7 @@ let () = register "dom" (fun words ->
            | _ -> "na")
         | None when f.(0) = "NZ" -> run_normalize st view (h 1)
         | None when List.mem f.(0) ["ES"; "ESI"; "ER"; "TS"; "TSI"; "TR"] -> run_ro st desc f h
+        | None when List.mem f.(0) ["ACX"; "IBX"; "IBXX"; "RCX"; "RCXX"] -> run_mx st f h
         | None -> "na"
         | Some (Query _) -> "q"
         | Some o ->
